@@ -1325,26 +1325,29 @@ class Session:
         if self.sc or self.connection.transport == PhysicalTransport.BR_EDR:
             keys.ltk = PairingKeys.Key(value=self.ltk, authenticated=authenticated)
         else:
-            our_ltk_key = PairingKeys.Key(
-                value=self.ltk,
-                authenticated=authenticated,
-                ediv=self.ltk_ediv,
-                rand=self.ltk_rand,
+            # ltk_central is the key to use when we are the Central of a later
+            # connection: the LTK distributed by the peer. ltk_peripheral is the key
+            # to use when we are the Peripheral: the LTK we distributed ourselves.
+            # (This is how Device.encrypt and Device.get_long_term_key read them.)
+            if self.peer_ltk is not None:
+                keys.ltk_central = PairingKeys.Key(
+                    value=self.peer_ltk,
+                    authenticated=authenticated,
+                    ediv=self.peer_ediv,
+                    rand=self.peer_rand,
+                )
+            our_key_distribution = (
+                self.initiator_key_distribution
+                if self.is_initiator
+                else self.responder_key_distribution
             )
-            if not self.peer_ltk:
-                logger.error("peer_ltk is None")
-            peer_ltk_key = PairingKeys.Key(
-                value=self.peer_ltk or b'',
-                authenticated=authenticated,
-                ediv=self.peer_ediv,
-                rand=self.peer_rand,
-            )
-            if self.is_initiator:
-                keys.ltk_central = peer_ltk_key
-                keys.ltk_peripheral = our_ltk_key
-            else:
-                keys.ltk_central = our_ltk_key
-                keys.ltk_peripheral = peer_ltk_key
+            if our_key_distribution & KeyDistribution.ENC_KEY:
+                keys.ltk_peripheral = PairingKeys.Key(
+                    value=self.ltk,
+                    authenticated=authenticated,
+                    ediv=self.ltk_ediv,
+                    rand=self.ltk_rand,
+                )
         if self.peer_identity_resolving_key is not None:
             keys.irk = PairingKeys.Key(
                 value=self.peer_identity_resolving_key, authenticated=authenticated
